@@ -488,10 +488,7 @@ theorem struct1_allH : (s : Stmt) → FragT s = true → Struct1H s
   | .put m v lv, h => struct1_simpleH _ (by simpa [FragT] using h) (by intros; simp) (by intros; simp) (by intros; simp)
   | .delete t, h => struct1_simpleH _ (by simpa [FragT] using h) (by intros; simp) (by intros; simp) (by intros; simp)
   | .hilite t, h => struct1_simpleH _ (by simpa [FragT] using h) (by intros; simp) (by intros; simp) (by intros; simp)
-  | .mcall .., h => by
-    first
-      | (simp [FragT] at h; done)
-      | exact struct1_simpleH _ (by simpa [FragT] using h) (by intros; simp) (by intros; simp) (by intros; simp)
+  | .mcall o m as, h => struct1_simpleH _ (by simpa [FragT] using h) (by intros; simp) (by intros; simp) (by intros; simp)
   | .tell .., h => by
     first
       | (simp [FragT] at h; done)
@@ -536,6 +533,16 @@ theorem embSJ_pos (hs : List Spec.Name) (s : Stmt) (hf : JsOkS s = true) (p p' :
     cases he
     simp only [EmbSJ]
     exact ⟨p', q, rfl⟩
+  | delete t =>
+    obtain ⟨p0, q, l, he, h1⟩ := h
+    cases he
+    simp only [EmbSJ, EmbSH]
+    exact ⟨p', q, l, rfl, h1⟩
+  | hilite t =>
+    obtain ⟨p0, q, l, he, h1⟩ := h
+    cases he
+    simp only [EmbSJ, EmbSH]
+    exact ⟨p', q, l, rfl, h1⟩
   | _ => simp [JsOkS] at hf
 
 open Drx.LinkJs in
@@ -577,8 +584,14 @@ theorem embSJ_tgtL1 (hs : List Spec.Name) : (s : Stmt) → JsOkT s = true → (x
     obtain ⟨sm, p, rfl, _, he, _⟩ := h
     exact ⟨_, rfl, embSJ_pos hs _ rfl p _ _ he⟩
   | .put .., hf, _, _, _ => by simp [JsOkT] at hf
-  | .delete .., hf, _, _, _ => by simp [JsOkT] at hf
-  | .hilite .., hf, _, _, _ => by simp [JsOkT] at hf
+  | .delete t, hf, x, h, o => by
+    obtain ⟨sm, p, rfl, _, he, _⟩ := h
+    simp only [JsOkT] at hf
+    exact ⟨_, rfl, embSJ_pos hs _ hf p _ _ he⟩
+  | .hilite t, hf, x, h, o => by
+    obtain ⟨sm, p, rfl, _, he, _⟩ := h
+    simp only [JsOkT] at hf
+    exact ⟨_, rfl, embSJ_pos hs _ hf p _ _ he⟩
   | .mcall .., hf, _, _, _ => by simp [JsOkT] at hf
   | .tell .., hf, _, _, _ => by simp [JsOkT] at hf
   | .repeatIn .., hf, _, _, _ => by simp [JsOkT] at hf
